@@ -33,7 +33,7 @@ import ast  # noqa: E402
 
 from pyvc.api import Any, Dict, TupleOf, mk, ih, opaque, reveal, use  # noqa: E402
 from contracts._nodes import PyNode, TSNode  # noqa: E402
-from contracts._common import ViolationT, PathT  # noqa: E402,F401  (also registers the ast.walk external)
+from contracts._common import ViolationT, PathT, py_walk  # noqa: E402,F401  (also registers the ast.walk external)
 
 H = "src/linters/srp/heuristics.py::"
 
@@ -226,10 +226,10 @@ class PyFindAllClasses:
         return tree is not None
 
     def value(tree):
-        return [node for node in tree.walk if isinstance(node, ast.ClassDef)]
+        return [node for node in py_walk(tree) if isinstance(node, ast.ClassDef)]
 
     def inv0(tree, classes, rest):
-        return [node for node in tree.walk if isinstance(node, ast.ClassDef)] == \
+        return [node for node in py_walk(tree) if isinstance(node, ast.ClassDef)] == \
             classes + [node for node in rest if isinstance(node, ast.ClassDef)]
 
 
@@ -269,7 +269,7 @@ class PyWrapFindAllClasses:
         return tree is not None
 
     def value(self, tree):
-        return [node for node in tree.walk if isinstance(node, ast.ClassDef)]
+        return [node for node in py_walk(tree) if isinstance(node, ast.ClassDef)]
 
 
 @contract(PA + "PythonSRPAnalyzer.analyze_class", props=["C16"],
@@ -768,7 +768,7 @@ class AnalyzePython:
     """One metrics record per class definition of the file, in ast.walk order."""
     def value(self, context, config):
         return [py_metrics(class_node, content_of(context), config)
-                for class_node in [node for node in py_root(content_of(context)).walk if isinstance(node, ast.ClassDef)]]
+                for class_node in [node for node in py_walk(py_root(content_of(context))) if isinstance(node, ast.ClassDef)]]
 
 
 @contract(CA + "ClassAnalyzer.analyze_typescript", props=["C16"],
@@ -1022,7 +1022,7 @@ class SrpShouldProcessFile:
 
 def py_reported(context, config):
     return reported([py_metrics(class_node, content_of(context), config)
-                     for class_node in [node for node in py_root(content_of(context)).walk if isinstance(node, ast.ClassDef)]],
+                     for class_node in [node for node in py_walk(py_root(content_of(context))) if isinstance(node, ast.ClassDef)]],
                     config, context)
 
 
